@@ -405,6 +405,15 @@ def check(chk):
                 chk.ob("DEAD-1", "chained comparison `%s` in %s is satisfiable" % (short(x, 60), f.qualname), why is None,
                        f.where(x), detail=why or "", construct=f.ident, text="dead guard " + short(x, 60))
 
+    # the watchdog that enforces max_hold_duration is forgotten only after the coil has been switched off: disable() calls the platform first -
+    # if that call fails the coil is still energised and the watchdog is its last line of defence
+    dsf = drv.methods["disable"]
+    dcf = dsf.cfg()
+    hw_off = [n for n, c in dcf.calls_named("disable") if src(c.func.value) == "self.hw_driver"]
+    wd_rm = [n for n, c in dcf.calls_named("remove") if "delay" in src(c.func.value) and c.args and const_value(c.args[0]) == "enable_limit_reached"]
+    ok_ = bool(hw_off) and bool(wd_rm) and all(dcf.dominates(h.id, r.id) for h in hw_off for r in wd_rm)
+    chk.ob("PAIR-10", "disable() switches the coil off before it forgets the max_hold_duration watchdog", ok_, dsf.where(), construct=dsf.ident,
+           detail="removed first, a failing platform call leaves the coil on with nothing left to switch it off", text="watchdog removed before switch-off")
     # ------------------------------------------------------------- DOM-17 (refused, never clamped)
     # a request beyond a configured limit is refused (DriverLimitsError in the verifying getters), never quietly reduced to the limit: no
     # device that drives coils (drivers, flippers, autofires, kickbacks, the platform controller) bounds a value with min()/max() against a
@@ -569,6 +578,7 @@ def battery():
     from sa.battery import M
     D = DRV
     return [
+        M("watchdog forgotten before the coil is switched off", "mpf/devices/driver.py", "        self.hw_driver.disable()\n        self.delay.remove(\"enable_limit_reached\")", "        self.delay.remove(\"enable_limit_reached\")\n        self.hw_driver.disable()", "PAIR-10"),
         M("flipper pulse clamped to the coil's limit", "mpf/devices/flipper.py", "            return int(pulse_ms * settings_factor)\n", "            pulse_ms = int(pulse_ms * settings_factor)\n            if self.config['main_coil'].config['max_pulse_ms']:\n                pulse_ms = min(pulse_ms, self.config['main_coil'].config['max_pulse_ms'])\n", "DOM-17"),
         M("zero-length delay runs at once", "mpf/core/delays.py", "        self.delays[name] = (self.machine.clock.schedule_once(\n            partial(self._process_delay_callback, name, callback, **kwargs),", "        if ms <= 0:\n            self._process_delay_callback(name, callback, **kwargs)\n            return name\n        self.delays[name] = (self.machine.clock.schedule_once(\n            partial(self._process_delay_callback, name, callback, **kwargs),", "PAIR-10"),
         M("zero-length delay calls the callback", "mpf/core/delays.py", "        self.delays[name] = (self.machine.clock.schedule_once(\n            partial(self._process_delay_callback, name, callback, **kwargs),", "        if not ms:\n            callback(**kwargs)\n        self.delays[name] = (self.machine.clock.schedule_once(\n            partial(self._process_delay_callback, name, callback, **kwargs),", "PAIR-10"),
